@@ -258,10 +258,14 @@ func (s *Server) matchEgressRule(addr net.IP, domain string, rule *appctlpb.Egre
 		}
 	} else if domain != "" {
 		// Domain name based rule.
+		// DNS names are not case sensitive, and a trailing dot
+		// does not change the host that a name refers to.
+		domain = strings.ToLower(strings.TrimSuffix(domain, "."))
 		for _, d := range rule.GetDomainNames() {
 			if d == "*" {
 				return true
 			}
+			d = strings.ToLower(strings.TrimSuffix(d, "."))
 			if domain == d || strings.HasSuffix(domain, "."+d) {
 				return true
 			}
